@@ -120,6 +120,16 @@ def exec_grammar(engine_extras: bool = False, opt_extras: bool = False) -> Gramm
         q += [
             A("intersect_all", 1, "SELECT a FROM x INTERSECT ALL SELECT c FROM y"),
             A("except_all", 1, "SELECT a FROM x EXCEPT ALL SELECT c FROM y"),
+            # LIMIT / OFFSET without a total order: which rows come back is free, how many is not (judged by count and
+            # containment in the unlimited result)
+            A("lim.scan", 1, "SELECT a, b FROM x LIMIT 1"), A("lim.offset", 1, "SELECT a, b FROM x LIMIT 1 OFFSET 1"),
+            A("lim.zero", 1, "SELECT a, b FROM x LIMIT 0"), A("lim.filter", 1, "SELECT a, b FROM x WHERE {sc} LIMIT 1"),
+            A("lim.union", 1, "SELECT a FROM x UNION SELECT c FROM y LIMIT 2"), A("lim.union_all", 1, "SELECT a FROM x UNION ALL SELECT c FROM y LIMIT 2"),
+            A("lim.union_offset", 1, "SELECT a FROM x UNION SELECT c FROM y LIMIT 1 OFFSET 1"),
+            A("lim.intersect", 1, "SELECT a FROM x INTERSECT SELECT c FROM y LIMIT 1"), A("lim.except", 1, "SELECT a FROM x EXCEPT SELECT c FROM y LIMIT 1"),
+            A("lim.distinct", 1, "SELECT DISTINCT a FROM x LIMIT 1"), A("lim.distinct2", 1, "SELECT DISTINCT a FROM x LIMIT 2"),
+            A("lim.group", 1, "SELECT a, COUNT(*) AS n FROM x GROUP BY a LIMIT 1"),
+            A("lim.join", 1, "SELECT x.a, y.c FROM x {jk} y ON {on} LIMIT 1"), A("lim.first_key_only", 1, "SELECT a, b FROM x ORDER BY 1 LIMIT 1"),
         ]
     if opt_extras:
         q += [
